@@ -10,6 +10,9 @@ import numpy as np
 from lib import Prop, coq_eval, coq_q, coq_nat, SkipCase
 import util
 from util import TensorProduct
+# [ext-C18X] the driver as a state machine (Driver/RunState*.v), see props/c18x.py
+from props import c18x
+# [/ext-C18X]
 
 
 # dictionary keys whose insertion order differs from their sorted order
@@ -286,6 +289,7 @@ class C18(Prop):
         # memory layouts of the generator.
         for rep in range(ctx.scale(150, 1500) * budget_scale):
             cases.append(self._gen_exactgen(rng))
+        cases += c18x.generate(ctx, stream, budget_scale)      # [ext-C18X]
         return cases
 
     @staticmethod
@@ -315,7 +319,7 @@ class C18(Prop):
                 "layout": rng.choice(["C", "C", "F", "view"]), "seed": rng.randrange(10 ** 6)}
 
     def nontrivial(self, case):
-        if case["kind"] == "grid":
+        if case["kind"] in ("grid", "xsm"):      # [ext-C18X] xsm
             return case["T"] / case["dt"] >= 0.5
         return True
 
@@ -637,6 +641,7 @@ class C18(Prop):
         for c in cases:
             try:
                 out.append(self._grid_impl(c) if c["kind"] == "grid" else
+                           c18x.impl(c) if c["kind"] == "xsm" else      # [ext-C18X]
                            self._exactgen_impl(c) if c["kind"] == "exactgen" else self._class_impl(c))
             except Exception as e:  # noqa
                 import traceback
@@ -648,6 +653,13 @@ class C18(Prop):
         exprs = []
         idx = []
         for i, (c, ob) in enumerate(zip(cases, obs)):
+            # [ext-C18X] state-machine cases: evaluated in the same coqc runs as the grid cases
+            if c["kind"] == "xsm":
+                if "n" in ob:
+                    exprs.append(c18x.model_expr(c, ob["n"]))
+                    idx.append(i)
+                continue
+            # [/ext-C18X]
             if c["kind"] != "grid":
                 continue
             q = Fraction(c["T"] / c["dt"])  # exact value of the float quotient
@@ -663,13 +675,15 @@ class C18(Prop):
                 e = f"(Every {coq_nat(k)})"
             exprs.append(kq + f"(num_steps {coq_q(q)}, run_counting n {e}))")
             idx.append(i)
-        vals = coq_eval(ctx, "From Coq Require Import ZArith QArith List. From PTN Require Import Driver.Run. Import ListNotations.", exprs, shard=150)
+        vals = coq_eval(ctx, "From Coq Require Import ZArith QArith List. From PTN Require Import Driver.Run." + c18x.IMPORTS + " Import ListNotations.", exprs, shard=150)      # [ext-C18X] imports
         out = [None] * len(cases)
         for i, v in zip(idx, vals):
             out[i] = v
         return out
 
     def compare(self, case, ob, mo):
+        if case["kind"] == "xsm":      # [ext-C18X]
+            return c18x.compare(case, ob, mo)
         if "exception" in ob:
             return f"implementation raised {ob['exception']} where the model runs"
         n_m, (final, cols, err) = mo
@@ -691,6 +705,8 @@ class C18(Prop):
 
     # -------------------------------------------------------------------------------
     def oracle(self, case, ob):
+        if case["kind"] == "xsm":      # [ext-C18X]
+            return c18x.oracle(case, ob)
         if "exception" in ob:
             return f"raised {ob['exception']}"
         if case["kind"] == "grid":
